@@ -154,7 +154,7 @@ func (a *BigInt) Float() (Float, error) {
 }
 
 func (a *BigInt) M__neg__() (Object, error) {
-	return (*BigInt)(new(big.Int).Neg((*big.Int)(a))), nil
+	return (*BigInt)(new(big.Int).Neg((*big.Int)(a))).MaybeInt(), nil
 }
 
 func (a *BigInt) M__pos__() (Object, error) {
@@ -165,11 +165,11 @@ func (a *BigInt) M__abs__() (Object, error) {
 	if (*big.Int)(a).Sign() >= 0 {
 		return a, nil
 	}
-	return (*BigInt)(new(big.Int).Abs((*big.Int)(a))), nil
+	return (*BigInt)(new(big.Int).Abs((*big.Int)(a))).MaybeInt(), nil
 }
 
 func (a *BigInt) M__invert__() (Object, error) {
-	return (*BigInt)(new(big.Int).Not((*big.Int)(a))), nil
+	return (*BigInt)(new(big.Int).Not((*big.Int)(a))).MaybeInt(), nil
 }
 
 func (a *BigInt) M__add__(other Object) (Object, error) {
